@@ -20,7 +20,7 @@ def main():
     pid, v = sys.argv[1], sys.argv[2]
     checks = sys.argv[3:] or [pid]
     src = f"/tmp/seeds/{pid}/{v}"
-    wt = os.environ.get("SEED_WT") or (f"/tmp/m-{pid}" if v in "AB" else f"/tmp/m2-{pid}" if v in "CD" else f"/tmp/m3-{pid}" if v in "EF" else f"/tmp/m4-{pid}")
+    wt = os.environ.get("SEED_WT") or (f"/tmp/m-{pid}" if v in "AB" else f"/tmp/m2-{pid}" if v in "CD" else f"/tmp/m3-{pid}" if v in "EF" else f"/tmp/m4-{pid}" if v in "GH" else f"/tmp/m5-{pid}")
     via_wt = os.environ.get("SEEDEVAL_VIA_WORKTREE") == "1"
     dst = os.path.join(VERIF, "seeded", f"{pid}-{v}")
     os.makedirs(dst, exist_ok=True)
